@@ -132,6 +132,12 @@ def families(rng):
         a = ns.add([w1], Decimal(20))
         ab = ns.add([w1, sym, w2], Decimal(1000))
         fams.append(("joined-second-unbound:" + sym,) + base(ns, {"n1": ab, "n2": a}))
+    # a bound name whose first word is `item` (the implicit variable of filters is only a name when nothing longer is bound)
+    ns = NameSet()
+    w1 = rng.choice(WORDS)
+    a = ns.add(["item", w1], Decimal(7))
+    b = ns.add(["item", rng.choice(["-", "/", "."]), w1], Decimal("2.5"))
+    fams.append(("item-prefix",) + base(ns, {"n1": a, "n2": b}))
     # symbol names with three words
     ns = NameSet()
     w = rng.sample(WORDS, 3)
@@ -196,6 +202,14 @@ def templates(roles, rng):
         ("function:parameter-extends-bound-name", ("call", ("fundef", [e1, "qq"], ("sub", ("name", e1), ("name", "qq"))), [N1, N2])),
         ("function:parameter-extends-earlier-parameter", ("call", ("fundef", ["pp", "pp rr"], ("sub", ("name", "pp"), ("name", "pp rr"))), [N1, N2])),
     ]
+    # formal parameters of an EXTERNAL function definition (a body the evaluator does not run) must not stay bound after it:
+    # the joined spelling of two bound names is a parameter there, and arithmetic again afterwards
+    for op, sym in (("sub", "-"), ("add", "+"), ("mul", "*"), ("div", "/")):
+        if roles.get("sym") == sym or "n3" not in roles:
+            continue  # (where the joined name is itself bound, it is the longest match anyway)
+        joined = "%s%s%s" % (roles["n2"], sym, roles["n3"])
+        out.append(("external-function:parameter-joins-bound-names:" + op, ("after_external", [joined, "zq zr"], (op, N2, ("name", roles["n3"])))))
+    out.append(("external-function:multiword-parameter", ("after_external", ["zq zr", "zs"], ("add", N1, N2))))
     if "n3" in roles:
         N3 = ("name", roles["n3"])
         # with a, b and a<sym>b all bound, `a <sym> b` IS the bound name (longest match); the other operators are arithmetic
@@ -223,7 +237,7 @@ def render_spelled(tree, spellings, rng):
 def run(rep, tier, seed):
     n_rounds = 250 if tier == "quick" else 8000
     rep.rule = (
-        "%d rounds x 17 name-set families (random 1-4 word names with and without the symbols . / - ' + *, non-ASCII words; a name that is a prefix of another; a, b and a-b / a+b / a*b / a/b all bound; "
+        "%d rounds x 18 name-set families (random 1-4 word names with and without the symbols . / - ' + *, non-ASCII words; a name that is a prefix of another; a, b and a-b / a+b / a*b / a/b all bound; "
         "a+b bound but b not; three-word symbol names) x 31 expression positions (operands of every arithmetic operator, comparisons, between, in, if, for / some / every domains and bodies, multi-word "
         "iteration variables and formal parameters, filters, context values and multi-word keys, path heads, positional and named invocation) x 2 random spellings of every name occurrence. "
         "Distinct = rendered text + name set; non-trivial = all of them (every text contains a multi-part name)." % n_rounds
